@@ -12,6 +12,11 @@
 (***************************************************************************)
 EXTENDS PulserSeq
 
+(* phases compared on the circle within PhaseTol units *)
+PhEq(a, b) ==
+  IF PhaseTol = 0 THEN a = b
+  ELSE LET d == Abs(a - b) % PhaseMod IN Min2(d, PhaseMod - d) <= PhaseTol
+
 IsPrefixSeq(a, b) == Len(a) <= Len(b) /\ \A k \in 1..Len(a) : a[k] = b[k]
 
 (* the mode a slot was played in: _ChannelSchedule.in_eom_mode(time_slot) *)
@@ -100,7 +105,12 @@ StartAllowed(pre, i, proto, ph, t, strong) ==
   /\ t >= RefBarrier(pre, bi, last.tg)
   /\ proto # "no-delay" =>
        /\ \A j \in 1..Len(pre.ch) : j # i => t >= ConflictEnd(pre, j, last.tg, proto, strong)
-       /\ (lp # 0 /\ c.sl[lp].ph # ph) => t - c.sl[lp].tf >= PJNeed(cfg, c, c.sl[lp], strong)
+       \* with quantised phases (PhaseTol > 0) phases closer than the tolerance may or may not be
+       \* bitwise different for the implementation: the weak reading requires the phase-jump wait
+       \* only for clearly different phases, the strong one whenever they might differ
+       /\ (lp # 0 /\ (IF PhaseTol = 0 THEN c.sl[lp].ph # ph
+                       ELSE (strong \/ ~PhEq(c.sl[lp].ph, ph)))) =>
+             t - c.sl[lp].tf >= PJNeed(cfg, c, c.sl[lp], strong)
   /\ \/ t = t0
      \/ /\ t - t0 >= cfg.minDur
         /\ (t - t0) % cfg.clock = 0
@@ -116,7 +126,8 @@ PhaseJumpOK(cfg, c, k, noDelay) ==
     LET l == CHOOSE l \in P : \A m \in P : m <= l
         prev == c.sl[l]
         need == IF PlayedInEom(c, op) THEN Max2(cfg.pjt, 2 * cfg.erise) ELSE cfg.pjt
-    IN prev.ph # op.ph => op.ti - prev.tf >= need + FallWeak(c, prev)
+    IN (IF PhaseTol = 0 THEN prev.ph # op.ph ELSE ~PhEq(prev.ph, op.ph)) =>
+         op.ti - prev.tf >= need + FallWeak(c, prev)
 
 RetargetOK(cfg, c, k) ==
   LET op == c.sl[k]
@@ -145,11 +156,6 @@ PrevEstimate(c, h) ==
        IN IF pc.op = "est" /\ e[2] = "ok" /\ c.op = "add"
              /\ pc.nm = c.nm /\ pc.p = c.p /\ pc.proto = c.proto
           THEN <<TRUE, e[3]>> ELSE <<FALSE, 0>>
-
-(* phases compared on the circle within PhaseTol units *)
-PhEq(a, b) ==
-  IF PhaseTol = 0 THEN a = b
-  ELSE LET d == Abs(a - b) % PhaseMod IN Min2(d, PhaseMod - d) <= PhaseTol
 
 (* slots appended by the transition: <<channel index, slot index>> *)
 NewSlots(pre, post) ==
